@@ -43,6 +43,19 @@ let dur_check line =
   | _, None -> verdict false ("outcome:" ^ i)
   | _ -> failwith "dur.sb"
 
+(* "earlier later" in nanoseconds after a common base instant *)
+let osd line =
+  match toks line with
+  | [a; b] -> res_n (os_duration_since (n_of_string b) (n_of_string a))
+  | _ -> failwith "osd"
+
+let osd_check line =
+  let (c, i) = split_sb line in
+  match toks c, parse_res_n i with
+  | [a; b], Some r -> verdict (osd_sb (n_of_string a) (n_of_string b) r) "not-elapsed-nanos-times-1000"
+  | _, None -> verdict false ("outcome:" ^ i)
+  | _ -> failwith "osd.sb"
+
 let prec_check line =
   let (c, i) = split_sb line in
   match toks c, toks i with
@@ -96,6 +109,8 @@ let dispatch mode line =
   match mode with
   | "tsc" | "tscd" | "tscs" -> tsc line
   | "dur" -> dur line
+  | "osd" | "oss" -> osd line
+  | "osd.sb" | "oss.sb" -> osd_check line
   | "prec" -> prec line
   | "tsc.sb" | "tscd.sb" | "tscs.sb" -> tsc_check line
   | "dur.sb" -> dur_check line
